@@ -88,9 +88,14 @@ func idsVals(ids ...int) []string {
 	return out
 }
 
+// c12Real, set for the duration of a "realfs-*" case (cases run one after the
+// other in a process), puts the world on a scratch directory driven through
+// the repository's own file engine instead of the in-memory model.
+var c12Real bool
+
 func c12Setup(ctx context.Context, fileLike bool) (*c12World, error) {
 	w := &c12World{objVals: map[ksuid.KSUID][]int{}, preIDs: map[string][]int{}, loadOf: map[ksuid.KSUID][]int{}}
-	w.eng = store.New(store.NewMem(), fileLike)
+	w.eng = store.New(newBacking(c12Real), fileLike)
 	l, err := lk.Create(ctx, w.eng)
 	if err != nil {
 		return nil, err
@@ -381,6 +386,31 @@ func runC12(c *rt.Ctx) {
 	for i := 0; i < ns; i++ {
 		c.Case("stress", i, func(o *rt.Obs) { c12Stress(c, o) })
 	}
+	// the same single-preemption enumeration on a real directory through
+	// pkg/storage/file.go (one FileSystem per client, as in separate processes):
+	// quick: load/load, load/delete, merge/delete-conflict, create-pool/rename-pool
+	real := [][2]int{{0, 0}, {0, 2}, {6, 12}, {7, 8}}
+	if !c.Quick() {
+		real = nil
+		for ai := range c12PairAlphabet {
+			for bi := range c12PairAlphabet {
+				if int(rt.NewRand(uint64(ai*977+bi)+c.Seed*13).Uint64()%4) == 0 {
+					real = append(real, [2]int{ai, bi})
+				}
+			}
+		}
+	}
+	for i, ab := range real {
+		ab := ab
+		if ab[0] >= len(c12PairAlphabet) || ab[1] >= len(c12PairAlphabet) {
+			continue
+		}
+		c.Case("realfs-pair", i, func(o *rt.Obs) {
+			c12Real = true
+			defer func() { c12Real = false }()
+			c12Pair(c, o, c12PairAlphabet[ab[0]], c12PairAlphabet[ab[1]], true)
+		})
+	}
 }
 
 // c12Pair enumerates every single-preemption schedule of (A by client a, B by client b).
@@ -400,6 +430,10 @@ func c12Pair(c *rt.Ctx, o *rt.Obs, A, B c12Op, fileLike bool) {
 	if err != nil {
 		o.Violation("setup-failed", err.Error())
 		return
+	}
+	defer store.Discard(base.eng.B)
+	if c12Real {
+		o.Count("cases_on_real_file_engine", 1)
 	}
 	res, err := c12RunSchedule(ctx, base, fileLike, clients, []store.Segment{{Client: "a", N: -1}}, false)
 	if err != nil {
@@ -426,7 +460,11 @@ func c12Pair(c *rt.Ctx, o *rt.Obs, A, B c12Op, fileLike bool) {
 			o.Violation("setup-failed", err.Error())
 			return
 		}
+		if c12Real {
+			o.Count("schedules_on_real_file_engine", 1)
+		}
 		c12Judge(c, o, res, what, k > 0 && k < nA)
+		store.Discard(res.w.eng.B)
 	}
 }
 
